@@ -123,7 +123,7 @@ func init() {
 				u := func(tag string, n int) int { return int(k.H(sd, tag, 0) % uint64(n)) }
 				hs, ps := all[u("h", len(all))], all[u("p", len(all))]
 				env := []string{"normal", "normal", "delete", "corrupt-mid", "corrupt-all", "empty", "dup"}[u("env", 7)]
-				s := &k.Spec{Params: P("host", sideString(hs, u("hl", 3) == 0), "plugin", sideString(ps, u("pl", 3) == 0), "mask", strconv.Itoa(u("mask", 32)), "env", env,
+				s := &k.Spec{Seed: sd, Params: P("host", sideString(hs, u("hl", 3) == 0), "plugin", sideString(ps, u("pl", 3) == 0), "mask", strconv.Itoa(u("mask", 32)), "env", env,
 					"nogrpcserver", b2s(u("ngs", 6) == 0))}
 				if env == "normal" && u("inh", 3) == 0 {
 					s.Params["inherit"] = c02Inherited[u("inhv", len(c02Inherited))]
